@@ -28,7 +28,8 @@ struct FwConfig {
 };
 
 // handler action bits
-enum : u16 { HA_RESTART_T0 = 1, HA_AUDIO = 2, HA_REPLY = 4, HA_ACK = 8, HA_TRIGGER = 16, HA_IDLE_INSIDE = 32, HA_RESTART_T1 = 64 };
+enum : u16 { HA_RESTART_T0 = 1, HA_AUDIO = 2, HA_REPLY = 4, HA_ACK = 8, HA_TRIGGER = 16, HA_IDLE_INSIDE = 32, HA_RESTART_T1 = 64,
+             HA_EINT = 128, HA_EVENT = 256, HA_DMA = 512 };
 
 inline u16 timer_cfg_word(int mode, bool pause, bool mu, bool restart) {
     return (u16)((mode & 7) << 2 | (pause ? 1 : 0) << 8 | (mu ? 1 : 0) << 9 | (restart ? 1 : 0) << 10);
@@ -66,6 +67,12 @@ inline void fw_build(FwConfig& c, Asm& a) {
         a.org(haddr[h]);
         a.w(op::INC_A1);
         u16 act = c.hact[h], par = c.hparam[h];
+        if (act & HA_EINT)
+            a.w(op::EINT); // nested interrupts
+        if (act & HA_EVENT)
+            a.store_imm(MMIO + 0x22, 1); // event write (counts only in event-count mode)
+        if (act & HA_DMA)
+            a.store_imm(MMIO + 0x1DE, 0x40C0); // start the DMA channel the host prepared (DSP -> external memory)
         if (act & HA_RESTART_T0)
             a.store_imm(MMIO + 0x20, (u16)(c.tcfg[0] | 0x400));
         if (act & HA_RESTART_T1)
@@ -94,9 +101,25 @@ inline void fw_build(FwConfig& c, Asm& a) {
         a.w(op::INC_A0);
     if (c.main_kind == 2)
         a.w(op::EINT);
+    if (c.main_kind == 3) { // a repeat and a block repeat before going idle
+        a.rep_imm(17);
+        a.w(op::INC_A0);
+        u32 start = a.at + 2;
+        a.bkrep_imm(5, start + 1);
+        a.w(op::INC_A0);
+        a.w(op::DEC_A1);
+    }
     if (c.main_kind == 1) {
         a.w(op::INC_A0);
         a.brr(-2);
+        c.idle_addr = 0xFFFFFFFF;
+    } else if (c.main_kind == 4) { // never idle: a block repeat inside an endless loop
+        u32 loop = a.at;
+        u32 start = a.at + 2;
+        a.bkrep_imm(3, start + 1);
+        a.w(op::INC_A0);
+        a.w(op::INC_A0);
+        a.br(loop);
         c.idle_addr = 0xFFFFFFFF;
     } else {
         c.idle_addr = a.at;
@@ -124,6 +147,21 @@ inline void fw_host_setup(Box& b, const FwConfig& c) {
     for (int i = 0; i < c.bt_words; ++i)
         t.MMIOWrite(0x2C6, (u16)(0x100 + i));
     t.MMIOWrite(0x2BE, c.bt_enable ? 1 : 0);
+    // DMA channel 0: two words from data 0x0A00 to external memory through AHBM channel 0 (handlers may start it)
+    t.MMIOWrite(0x1BE, 0);
+    t.MMIOWrite(0x1C0, 0x0A00);
+    t.MMIOWrite(0x1C2, 0);
+    t.MMIOWrite(0x1C4, 0x0100);
+    t.MMIOWrite(0x1C6, 0x2000);
+    t.MMIOWrite(0x1C8, 2);
+    t.MMIOWrite(0x1CA, 1);
+    t.MMIOWrite(0x1CC, 1);
+    t.MMIOWrite(0x1CE, 1);
+    t.MMIOWrite(0x1D0, 2);
+    t.MMIOWrite(0x1DA, 0x0070);
+    t.MMIOWrite(0x0E2, 1 << 4);
+    t.MMIOWrite(0x0E4, 1 << 8);
+    t.MMIOWrite(0x0E6, 1);
     for (int i = 0; i < c.bt1_words; ++i)
         t.MMIOWrite(0x346, (u16)(0x300 + i));
     t.MMIOWrite(0x33E, c.bt1_enable ? 1 : 0);
